@@ -42,29 +42,27 @@ theorem cancelTok_frame (s : State) (id : Nat) (o : Op) {j : Nat} (hj : j ≠ id
 
 /-! ### what happens to the addressed op -/
 
-/-- the op after `Driver::cancel` -/
-theorem driverCancel_op (s : State) (id : Nat) (o : Op) {x : Op} (hx : s.ops[id]? = some x) :
-    ∃ x', (driverCancel s id o).ops[id]? = some x' ∧ x'.cancelled = x.cancelled ∧ x'.user = x.user ∧
-      x'.result = x.result ∧ x'.kstat = x.kstat := by
+/-- the op after `Driver::cancel`: some update that leaves flag, handles, result and kernel status alone -/
+theorem driverCancel_op (s : State) (id : Nat) (o : Op) :
+    ∃ g : Op → Op, (∀ x, (g x).cancelled = x.cancelled ∧ (g x).user = x.user ∧ (g x).result = x.result ∧
+        (g x).kstat = x.kstat) ∧ (driverCancel s id o).ops[id]? = (s.ops[id]?).map g := by
   unfold driverCancel iourCancel pollCancel
   split
   · split
-    · exact ⟨_, by simp only [getElem?_modAt_self, hx, Option.map_some], rfl, rfl, rfl, rfl⟩
-    · exact ⟨_, by simp only [getElem?_modAt_self, hx, Option.map_some], rfl, rfl, rfl, rfl⟩
+    · exact ⟨_, fun _ => ⟨rfl, rfl, rfl, rfl⟩, getElem?_modAt_self _ _ _⟩
+    · exact ⟨_, fun _ => ⟨rfl, rfl, rfl, rfl⟩, getElem?_modAt_self _ _ _⟩
   · split
-    · exact ⟨x, hx, rfl, rfl, rfl, rfl⟩
-    · exact ⟨_, by simp only [getElem?_modAt_self, hx, Option.map_some], rfl, rfl, rfl, rfl⟩
+    · exact ⟨id, fun _ => ⟨rfl, rfl, rfl, rfl⟩, by simp⟩
+    · exact ⟨_, fun _ => ⟨rfl, rfl, rfl, rfl⟩, getElem?_modAt_self _ _ _⟩
 
 theorem cancelIssue_cancelled (s : State) (id : Nat) (o : Op) {x : Op} (hx : s.ops[id]? = some x) :
     ∃ x', (cancelIssue s id o).ops[id]? = some x' ∧ x'.cancelled = true ∧ x'.result = x.result := by
   unfold cancelIssue
-  have h1 : ({ s with ops := modAt (fun o => { o with cancelled := true }) s.ops id } : State).ops[id]?
-      = some { x with cancelled := true } := by
-    simp only [getElem?_modAt_self, hx, Option.map_some]
-  obtain ⟨x2, h2, hc, _, hr, _⟩ := driverCancel_op _ id o h1
-  refine ⟨_, by simp only [getElem?_modAt_self, h2, Option.map_some], ?_, ?_⟩
-  · simp only [Op.dropRef, Op.dropRefs]; exact hc
-  · simp only [Op.dropRef, Op.dropRefs]; exact hr
+  obtain ⟨g, hg, h2⟩ := driverCancel_op { s with ops := modAt (fun o => { o with cancelled := true }) s.ops id } id o
+  refine ⟨(Op.dropRef { (g { x with cancelled := true }) with user := (g { x with cancelled := true }).user - 1 }), ?_, ?_, ?_⟩
+  · simp only [getElem?_modAt_self, h2, hx, Option.map_some]
+  · simp only [Op.dropRef, Op.dropRefs]; exact (hg _).1
+  · simp only [Op.dropRef, Op.dropRefs]; exact (hg _).2.2.1
 
 /-- `cancel_token` on a live op leaves the flag set -/
 theorem cancelTok_cancelled (s : State) (id : Nat) {o : Op} (ho : s.ops[id]? = some o) :
@@ -74,7 +72,8 @@ theorem cancelTok_cancelled (s : State) (id : Nat) {o : Op} (ho : s.ops[id]? = s
       = some { o.cloneRef with user := o.user + 1 } := by
     simp only [getElem?_modAt_self, ho, Option.map_some]
   split
-  · exact ⟨_, by simp only [getElem?_modAt_self, ho, Option.map_some], rfl⟩
+  · refine ⟨(Op.dropRef { ({ o.cloneRef with user := o.user + 1 } : Op) with cancelled := true, user := o.user + 1 - 1 }), ?_, rfl⟩
+    simp only [getElem?_modAt_self, ho, Option.map_some]
   · obtain ⟨x', h1, h2, _⟩ := cancelIssue_cancelled _ id _ h0
     exact ⟨x', h1, h2⟩
 
